@@ -25,7 +25,17 @@ def b_len(reg, eng, st, args, kwargs, node):
         return [(st, vint(len(v.x)))]
     if k in ("str", "seq"):
         return [(st, vint(z3.Length(v.x)))]
-    if k in ("bag", "set", "dict"):
+    if k in ("set", "dict") or (k == "bag" and v.x.get_id() in getattr(eng, "nodup", ())):
+        # duplicate-free collection: len is the cardinality of the element set; what is stated: >= 0, == 0 iff empty, == 1 iff singleton, >= 2 iff two distinct elements
+        arr = v.x if k != "dict" else v.x[0]
+        dom = arr.sort().domain()
+        card = z3.Function("card_" + str(arr.sort()).replace(" ", "").replace("(", "_").replace(")", "_").replace(",", "_"), arr.sort(), z3.IntSort())(arr)
+        x, y = z3.Const(fresh_name("e"), dom), z3.Const(fresh_name("e"), dom)
+        st.assume(card >= 0)
+        st.assume((card == 0) == z3.Not(z3.Exists([x], z3.Select(arr, x))))
+        st.assume((card >= 2) == z3.Exists([x, y], z3.And(z3.Select(arr, x), z3.Select(arr, y), x != y)))
+        return [(st, vint(card))]
+    if k in ("bag",):
         # only emptiness of len(...) is modelled: 0 if empty, else 1 + |u(arr)| for an uninterpreted u
         arr = v.x if k != "dict" else v.x[0]
         x = z3.Const(fresh_name("e"), arr.sort().domain())
